@@ -20,7 +20,7 @@ from mc.oracle import stepmodel as sm
 
 LEVEL = 'exploration'
 SHAPES = [(), (1,), (3,), (2, 3), (2, 2, 2), (40,), (5, 8), (1, 1, 4)]
-BIG = 8                      # shapes with more elements get a rotated subset of positions in quick
+BIG = 6                      # shapes with more elements get a rotated subset of positions in quick
 POOL = [0.3, -1.7, 2.5, 11.0, 0.0, 1e-3, -0.02, 150.0, -5.0, 1e-9]
 ORDERS = [1, 2, 3, 4, 6]
 REAL_METHODS = ['central', 'forward', 'backward']
@@ -233,6 +233,12 @@ class Unit(object):
                 close = np.abs(der - sder) <= np.abs(est) + np.abs(sest)
             bad = ~(same | close)
             self.acc.count('complex-step:array-vs-scalar:not-bit-identical', int(np.count_nonzero(~same)))
+            with np.errstate(all='ignore'):
+                ratio = np.atleast_1d(np.abs(der - sder) / (np.abs(est) + np.abs(sest)))
+            ratio = ratio[np.atleast_1d(~same) & np.isfinite(ratio)]
+            if ratio.size:
+                self.acc.maxi('complex-step:array-vs-scalar:worst |difference| / (sum of both error estimates)',
+                              float(ratio.max()))
         if bad.any():
             i = int(np.flatnonzero(bad.ravel())[0])
             self.violation('scalar-differs', ('real-step' if self.real else 'complex-step') + ':' +
@@ -419,7 +425,7 @@ def run(ctx):
             'another element (size >= 2) or, for size 1, the shape/scalar comparison; column classes (all-nan / '
             'partial-nan / finite) come from the documented step sequence and the test function, not from the '
             'library.' % (len(SHAPES), len(configs()),
-                          'all positions' if not ctx.quick else 'all positions (3 seed-rotated ones for sizes > 8)',
+                          'all positions' if not ctx.quick else 'all positions (3 seed-rotated ones for sizes > 6)',
                           'the whole pool' if not ctx.quick else '2 seed-rotated pool values', len(rotations)))
     return fw.finish(ctx, acc, LEVEL, rule, exhaustive=True, required_cells=req,
                      assumptions=['numpy float +, -, *, /, sqrt are correctly rounded elementwise, so the test '
